@@ -461,7 +461,14 @@ func (c *fctx) rangeStmt() []*S {
 			}
 			c.g.mark("range_slice_mutated_in_body")
 		case "array":
-			if !(c.g.cfg.Quar["A6"] && loop.Name2 != "" && loop.Name2 != "_") {
+			if r.Bool() {
+				// every write to the array stands textually BEFORE the loop, inside a closure that
+				// the body calls
+				id := c.g.id()
+				pre = append(pre, &S{K: SRaw, ID: id, Src: fmt.Sprintf("put%d := func(i, v int) { %s[i] = v }", id, coll)})
+				mut = &S{K: SRaw, Src: fmt.Sprintf("put%d(%d, %s)", id, r.Intn(3), e)}
+				c.g.mark("range_array_written_through_a_closure_declared_before_the_loop")
+			} else {
 				mut = &S{K: SRaw, Src: fmt.Sprintf("%s[%d] = %s", coll, r.Intn(3), e)}
 				c.g.mark("range_array_mutated_in_body")
 			}
